@@ -654,7 +654,40 @@ func keyshareCommitmentsRule(P *Program, R *Report) {
 	fs := litFieldStores(fn, "new:gabi.ProofPCommitment")
 	tp := termAtStore(P, fn, fs["Pcommit"])
 	tP := termAtStore(P, fn, fs["P"])
+	// (the commitment may be made by a new unexported helper that is called once per key: its literal is read with the
+	// helper's parameters bound to the call's arguments)
+	var maker *ssa.Function
+	if fs["Pcommit"] == nil {
+		for _, ci := range callsIn(fn) {
+			g := staticCallee(ci)
+			if g == nil || g.Blocks == nil || !newHelper(g) || g.Parent() != nil {
+				continue
+			}
+			gfs := litFieldStores(g, "new:gabi.ProofPCommitment")
+			if gfs["Pcommit"] == nil || gfs["P"] == nil {
+				continue
+			}
+			// the helper works on the key of this iteration
+			keyIsOwn := false
+			for _, a := range callArgs(ci) {
+				if desc(a) == "arg#1[#i]" {
+					keyIsOwn = true
+				}
+			}
+			if !keyIsOwn {
+				continue
+			}
+			maker = g
+			bindCall(ci, g, func() {
+				tp = termAtStore(P, g, gfs["Pcommit"])
+				tP = termAtStore(P, g, gfs["P"])
+			})
+		}
+	}
 	k := "arg#1[#i]"
+	if maker != nil {
+		k = pkD // (inside the helper the key it was handed is named by its type)
+	}
 	r := tsym(desc(gen) + "#0")
 	// one commitment object per key: what is appended for a key is made in that key's iteration (an object looked up by
 	// issuer name and shared between keys carries another key's commitment)
@@ -671,6 +704,19 @@ func keyshareCommitmentsRule(P *Program, R *Report) {
 		nApp++
 		al, isAl := t[0].V.(*ssa.Alloc)
 		l := innermostLoopOf(c.Block())
+		if mk, isCall := t[0].V.(*ssa.Call); isCall && maker != nil && staticCallee(mk) == maker && l != nil && l.Body[mk.Block()] {
+			// made by the helper, called in this iteration: every return of the helper is an object it made itself
+			fresh := true
+			for _, r := range returnsOf(maker) {
+				if a2, isA := retValue(r, 0).(*ssa.Alloc); !isA || !a2.Heap {
+					fresh = false
+				}
+			}
+			if !fresh {
+				okPerKey = false
+			}
+			return
+		}
 		if !isAl || l == nil || !l.Body[al.Block()] {
 			okPerKey = false
 		}
